@@ -70,6 +70,9 @@ func seededSelfTest(prop, repo, verif string) any {
 		}
 		dir := filepath.Dir(m)
 		name := filepath.Base(dir)
+		if _, err := os.Stat(filepath.Join(dir, "patch.diff")); err != nil {
+			continue // retired seed (kept for the record only)
+		}
 		tmp, err := os.MkdirTemp("", "avfslint-seed-")
 		if err != nil {
 			add(res{Seed: name, Outcome: "skipped", Note: err.Error()})
